@@ -534,15 +534,20 @@ def run(tier):
     seeds_probe = ('12345', '7') if thorough else ('12345',)
     cand = [i for i, r in enumerate(impl) if r.get('st') == 'ok']
     rnd = lib.rng('C13probe')
-    nprobe = min(len(cand), int((400 if thorough else 80) * SCALE))
+    nprobe = min(len(cand), int((250 if thorough else 70) * SCALE))
     probe = sorted(rnd.sample(cand, nprobe)) if cand else []
-    d_idx = sorted(set(need_d) | set(probe))
-    d_lines = [lines[i] for i in d_idx]
+    need_sorted = sorted(need_d)
     t0 = time.time()
+    # attribution of the in-process differences: seed 0 only
+    dn = dict(zip(need_sorted, run_impl([lines[i] for i in need_sorted], specpath, hashseed='0', det=1))) \
+        if need_sorted else {}
+    # hash-seed probe: the SAME line list (hence the same worker histories) under every seed
     d_runs = {}
     for hs in ('0',) + seeds_probe:
-        d_runs[hs] = dict(zip(d_idx, run_impl(d_lines, specpath, hashseed=hs, det=1))) if d_idx else {}
-    d0 = d_runs['0']
+        d_runs[hs] = dict(zip(probe, run_impl([lines[i] for i in probe], specpath, hashseed=hs, det=1))) if probe else {}
+    d0 = dict(d_runs['0'])
+    d0.update(dn)
+    d_idx = sorted(set(need_d) | set(probe))
 
     def nd_violation(i, where, a, b, extra, pr=0):
         viol.append((pr, f'not deterministic ({where}): two compilations of the same statement differ',
@@ -557,8 +562,8 @@ def run(tier):
         if d.get('st') != 'ok' or obs_key(d) != obs_key2(d):
             unsettled.add(i)
     cross = {hs: [i for i in probe if (d_runs[hs].get(i) or {}).get('st') != 'ok'
-                  or (d0.get(i) or {}).get('st') != 'ok'
-                  or obs_key(d_runs[hs][i]) != obs_key(d0[i])] for hs in seeds_probe}
+                  or (d_runs['0'].get(i) or {}).get('st') != 'ok'
+                  or obs_key(d_runs[hs][i]) != obs_key(d_runs['0'][i])] for hs in seeds_probe}
     for hs in seeds_probe:
         unsettled.update(cross[hs])
     f_idx = sorted(unsettled)
@@ -810,7 +815,7 @@ def run(tier):
         'coq_vm_compute_disagreements': len(coq_diff),
         'nondeterministic_in_process': len(nondet_in),
         'hashseed_probe_cases': len(probe) * len(seeds_probe),
-        'mode_D_inprocess_cases': len(d_idx) * (1 + len(seeds_probe)),
+        'mode_D_inprocess_cases': len(need_sorted) + len(probe) * (1 + len(seeds_probe)),
         'mode_D_fork_confirmations': sum(len(v) for v in f_runs.values()),
         'address_randomisation_off_in_mode_D': bool(noaslr_prefix()),
         'hashseed_probe_differences': cross_diff,
